@@ -5,7 +5,7 @@ HOOK_COMMITS = []     # commits in /repo that add OMPL_VERIF-guarded hooks
 
 CHECKS["C11"] = dict(
     src="harness/C11_heap.cpp",
-    cases=dict(quick=400000, thorough=6000000),
+    cases=dict(quick=2000000, thorough=20000000),
     fuzz=dict(runs=8000000, maxlen=400),
     rule="Case = generated history (<=60 ops, ends when the choice bytes run out) of insert / insert(vector) / remove(handle) / "
          "update(handle after key change) / pop / in-place key changes + rebuild / buildFrom / sort / clear / drain+reinsert on "
@@ -25,7 +25,7 @@ CHECKS["C11"] = dict(
 
 CHECKS["C12"] = dict(
     src="harness/C12_pdf.cpp",
-    cases=dict(quick=400000, thorough=6000000),
+    cases=dict(quick=2000000, thorough=20000000),
     fuzz=dict(runs=8000000, maxlen=400),
     rule="Case = generated history (<=50 ops) of add / update / remove / clear / sample(r) on ompl::PDF<int>, optionally starting from the "
          "vector constructor; weights from {0, small ints, 0.1-style non-representables, 1e-3, uniform reals} and in 19% of cases also "
@@ -46,7 +46,7 @@ CHECKS["C12"] = dict(
 
 CHECKS["C13"] = dict(
     src="harness/C13_grid.cpp",
-    cases=dict(quick=150000, thorough=2500000),
+    cases=dict(quick=400000, thorough=2500000),
     fuzz=dict(runs=4000000, maxlen=600),
     rule="Case = grid variant {Grid, GridN, GridB, GridB<less,greater>} x dimension 1..5 x optional bounds (low<up) x optional interior-"
          "neighbour limit x history (<=60 ops) of createCell+add (never a duplicate coordinate) / remove+destroyCell / update / updateAll / "
@@ -67,7 +67,7 @@ CHECKS["C13"] = dict(
 
 CHECKS["C10"] = dict(
     src="harness/C10_nn.cpp",
-    cases=dict(quick=400000, thorough=6000000),
+    cases=dict(quick=800000, thorough=6000000),
     fuzz=dict(runs=6000000, maxlen=700),
     rule="Case = structure {GNAT, GNATNoThreadSafety, Linear, SqrtApprox} x GNAT parameters (degree 2..8, min/max degree, leaf size 1..8, "
          "removed-cache 1..16, rebalancing; 12% library defaults) x metric {L1, L2, Linf} x dimension 1..3 x point distribution {4-lattice "
@@ -91,7 +91,7 @@ CHECKS["C10"] = dict(
 
 CHECKS["C18"] = dict(
     src="harness/C18_ptc.cpp",
-    cases=dict(quick=300000, thorough=4000000),
+    cases=dict(quick=1500000, thorough=15000000),
     fuzz=dict(runs=3000000, maxlen=300),
     rule="Case = one of: (52%) combinator tree (1..5 leaves from {predicate with generated bit trace, always, never, iteration(n)}, joined by "
          "or/and in generated shape) driven by <=30 steps of eval(root via eval() or operator()) / eval(any node) / terminate(any node), "
@@ -304,7 +304,7 @@ CHECKS["C04"] = dict(
 
 CHECKS["C17"] = dict(
     src="harness/C17_simplify.cpp",
-    cases=dict(quick=20000, thorough=400000),
+    cases=dict(quick=150000, thorough=3000000),
     rule="Case = environment and space (normal scenarios of C01: R^n, SE2, SE3, weighted compound; 0..6 obstacles) x valid input path built by "
          "the harness {random valid polyline 1..13 states; detour hugging a ball or box obstacle at margin 0.05..0.4 (45%); tiny 1-2 state path; "
          "polyline with repeated states / 1e-9 segments}, optionally ending at the goal x objective {length, state-cost integral, max-min clearance} "
